@@ -11,20 +11,32 @@ use std::convert::TryFrom;
 
 /// mode: 0 plain; 1 behind a storage header; 2 behind a storage header, parsed with a filter whose
 /// ECU id set holds the header's and the storage header's id; 3 no storage header, same filter
-fn judge_htyp(htyp: u8, mode: usize, loc: &mut Local) {
+/// contents of the optional header fields (ECU id, session id, timestamp)
+const HTYP_FILLS: [([u8; 4], [u8; 4], [u8; 4]); 6] = [
+    (*b"ECU1", [1, 2, 3, 4], [5, 6, 7, 8]),
+    ([0; 4], [0; 4], [0; 4]),
+    ([0xFF; 4], [0xFF; 4], [0xFF; 4]),
+    (*b"E\0\0\0", [0, 0, 0, 1], [0x80, 0, 0, 0]),
+    (*b"\0CU1", [0x44, 0x4C, 0x54, 0x01], [0x44, 0x4C, 0x53, 0x01]),
+    ([0xC3, 0xA9, b'1', 0], [0x7F, 0xFF, 0xFF, 0xFF], [0xFF, 0xFF, 0xFF, 0xFE]),
+];
+
+fn judge_htyp(htyp: u8, mode: usize, fill: usize, loc: &mut Local) {
     loc.evals += 1;
     loc.traces += 1;
-    loc.state(htyp as u64 | (mode as u64) << 8, true);
+    loc.state(htyp as u64 | (mode as u64) << 8 | (fill as u64) << 12, true);
+    let (f_ecu, f_sid, f_ts) = HTYP_FILLS[fill];
+    let ecu_text = clean_field(&f_ecu);
     // message with exactly the header fields HTYP announces and an 8-byte payload
     let mut b = vec![htyp, 7, 0, 0];
     if htyp & 0x04 != 0 {
-        b.extend_from_slice(b"ECU1");
+        b.extend_from_slice(&f_ecu);
     }
     if htyp & 0x08 != 0 {
-        b.extend_from_slice(&[1, 2, 3, 4]);
+        b.extend_from_slice(&f_sid);
     }
     if htyp & 0x10 != 0 {
-        b.extend_from_slice(&[5, 6, 7, 8]);
+        b.extend_from_slice(&f_ts);
     }
     if htyp & 0x01 != 0 {
         b.extend_from_slice(&[0x40, 0, b'A', b'P', b'P', 0, b'C', b'T', b'X', 0]);
@@ -39,11 +51,11 @@ fn judge_htyp(htyp: u8, mode: usize, loc: &mut Local) {
         b = x;
     }
     let filter = if mode >= 2 {
-        Some(dlt_core::filtering::ProcessedDltFilterConfig { min_log_level: None, app_ids: None, ecu_ids: Some(["ECU1", "STOR"].iter().map(|s| s.to_string()).collect()), context_ids: None, app_id_count: 0, context_id_count: 0 })
+        Some(dlt_core::filtering::ProcessedDltFilterConfig { min_log_level: None, app_ids: None, ecu_ids: Some([ecu_text.as_str(), "STOR"].iter().map(|s| s.to_string()).collect()), context_ids: None, app_id_count: 0, context_id_count: 0 })
     } else {
         None
     };
-    let details = || json!({"htyp": htyp, "mode": mode, "input_hex": hex(&b)});
+    let details = || json!({"htyp": htyp, "mode": mode, "fill": fill, "input_hex": hex(&b)});
     loc.transitions += 1;
     match catch(|| dlt_message(&b, filter.as_ref(), storage).map(|(rest, pm)| (rest.len(), pm))) {
         Ok(Ok((0, ParsedMessage::Item(m)))) => {
@@ -54,14 +66,23 @@ fn judge_htyp(htyp: u8, mode: usize, loc: &mut Local) {
                 loc.violation("HTYP decodes to wrong version/flags", format!("HTYP {:#04x} decoded to (version, big endian, UEH, WEID, WSID, WTMS) = {:?}, bit layout says {:?}", htyp, got, expect), details());
                 return;
             }
-            if h.ecu_id.as_deref().unwrap_or("ECU1") != "ECU1" || h.session_id.unwrap_or(0x01020304) != 0x01020304 || h.timestamp.unwrap_or(0x05060708) != 0x05060708 {
+            let (x_sid, x_ts) = (u32::from_be_bytes(f_sid), u32::from_be_bytes(f_ts));
+            if h.ecu_id.as_deref().unwrap_or(&ecu_text) != ecu_text || h.session_id.unwrap_or(x_sid) != x_sid || h.timestamp.unwrap_or(x_ts) != x_ts {
                 loc.violation("HTYP optional fields read from wrong position", format!("HTYP {:#04x}: ecu {:?} session {:?} timestamp {:?}", htyp, h.ecu_id, h.session_id, h.timestamp), details());
                 return;
             }
             loc.transitions += 2;
             let re = catch(|| (h.header_type_byte(), m.as_bytes()));
+            // an ECU id field that is not in canonical form (text, NUL padding) is re-written canonically
+            let mut canon = b.clone();
+            if htyp & 0x04 != 0 {
+                let at = if storage { 20 } else { 4 };
+                let mut c = [0u8; 4];
+                c[..ecu_text.len()].copy_from_slice(ecu_text.as_bytes());
+                canon[at..at + 4].copy_from_slice(&c);
+            }
             match re {
-                Ok((byte, ser)) if byte == htyp && ser == b => {
+                Ok((byte, ser)) if byte == htyp && ser == canon => {
                     loc.outcome("htyp round trip");
                     loc.sample(|| json!({"htyp": htyp, "message": hex(&b)}));
                 }
@@ -199,7 +220,7 @@ fn judge_type_info(w: u32, loc: &mut Local, count_state: bool) {
 pub fn run(ctx: &Ctx) {
     ctx.enable_trace_pass(ctx.tier.pick(20000u64, 200000u64));
     ctx.set_rule("case = one code value; HTYP and MSIN: all 256 bytes each, through the conversion functions and through a real message; type info: every word of the stated domain, compared with an independent decoder of the bit layout (exactly one of BOOL/SINT/UINT/FLOA/STRG/RAWD among bits 4..10, supported TYLE) and re-encoded in both byte orders; non-trivial = the word is accepted");
-    ctx.run_family(Family::new("c14.htyp", 256 * 4, "all 256 HTYP bytes, each in a message with exactly the header fields it announces x {plain, behind a storage header, behind a storage header and parsed with an ECU-id filter that admits it, no storage header with that filter}", |i, loc| judge_htyp(i as u8, (i >> 8) as usize, loc)));
+    ctx.run_family(Family::new("c14.htyp", 256 * 4 * HTYP_FILLS.len() as u64, "all 256 HTYP bytes, each in a message with exactly the header fields it announces x {plain, behind a storage header, behind a storage header and parsed with an ECU-id filter that admits it, no storage header with that filter} x 6 contents of the optional fields {ECU1/ordinary numbers, all zero (empty ECU id), all 0xFF (not UTF-8), short id + extreme numbers, id starting with NUL + numbers spelling the storage / serial patterns, 2-byte character id}", |i, loc| judge_htyp(i as u8, ((i >> 8) & 3) as usize, (i >> 10) as usize, loc)));
     ctx.run_family(Family::new("c14.msin", 256, "all 256 MSIN bytes through MessageType::try_from / u8::from and through the extended header of a message", |i, loc| judge_msin(i as u8, loc)));
     // history: decoding a word must not depend on the words decoded before (memo tables, negative
     // caches): for ALL ordered pairs (x, y) of patterns of bits 0..12, decode x, then judge y twice
